@@ -50,7 +50,7 @@ def c_cx(rng):
         return []    # degenerate box: outside the guarantee for line / polygon kinds
     exp = [i for i, el in enumerate(cs.view) if oracle.intersects_bounds(kind, el, eff)]
     out = []
-    state = rng.choice(['none', 'built', 'built'])
+    state = rng.choice(['none', 'built', 'built', 'parent-built'])
     recipe = dict(cs.recipe, box=[sx.start, sx.stop, sy.start, sy.stop], index_state=state)
     tag = f'{kind_class(kind)}/{region_of(cs.view, kind)}'
     try:
@@ -59,6 +59,11 @@ def c_cx(rng):
             arr = arr.copy()
             arr.build_sindex(p=rng.choice([1, 5, 10]), page_size=rng.choice([1, 2, 3, 4, 512]))
             recipe['index_state'] = 'built'
+        elif state == 'parent-built':
+            # the index is built on the source array, the query runs on what was derived from it afterwards
+            parent = gen.build(kind, cs.recipe['elements'])
+            parent.build_sindex(p=rng.choice([1, 5, 10]), page_size=rng.choice([1, 2, 3, 512]))
+            arr, _ = gen.apply_steps(parent, list(cs.recipe['elements']), cs.recipe['steps'])
         got = arr.cx[sx, sy]
         gv = got.data.to_pylist() if kind != 'point' else [None if x is None else list(np.frombuffer(x, dtype='float64')) for x in got.data.to_pylist()]
         ev = cs.arr.take(np.array(exp, dtype='int64')).data.to_pylist() if exp else []
